@@ -19,6 +19,7 @@ OBLIGATIONS = [
     "NanoVerif.C05.default_quantization_1024",
     "NanoVerif.TrProofs.quantize_eq",
     "NanoVerif.TrProofs.quantize_rejects",
+    "NanoVerif.TrProofs.default_quantization_eq",
 ]
 DESIGN_REF = "DESIGN.md §5 C05"
 LEVEL_TEXT = ("Lean theorems for all layer lists, transforms and quantisation steps: the box `_bounds` returns misses a placed control point "
